@@ -27,11 +27,10 @@ func (v *V1) Inject(n codec.Node, yaml bool) (jd1.JsonNode, error) {
 	if n.IsVoid() {
 		return v.void, nil
 	}
-	txt := v.T.Text(n)
 	if yaml {
-		return jd1.ReadYamlString(txt)
+		return jd1.ReadYamlString(v.T.Text(n))
 	}
-	return jd1.ReadJsonString(txt)
+	return jd1.ReadJsonString(v.T.Spell(n, false))
 }
 
 // MustInjectB is MustInject for the b side of a pair (see V2.NegZeroB).
@@ -39,7 +38,7 @@ func (v *V1) MustInjectB(n codec.Node) jd1.JsonNode {
 	if !v.NegZeroB || n.IsVoid() {
 		return v.MustInject(n)
 	}
-	j, err := jd1.ReadJsonString(v.T.TextNZ(n))
+	j, err := jd1.ReadJsonString(v.T.Spell(n, true))
 	if err != nil {
 		panic(fmt.Sprintf("codec: cannot inject %v: %v", v.T.TextNZ(n), err))
 	}
